@@ -60,6 +60,9 @@ def check_case(case, acc):
     import mokapot
 
     set_chunks(**DEFAULT_CHUNKS)
+    if case.get("pred_chunk"):
+        # the table is predicted in several row chunks: a fold's scores arrive in pieces, the anchors are per FOLD
+        set_chunks(CHUNK_SIZE_ROWS_PREDICTION=case["pred_chunk"])
     work = worker_scratch().sub()
     sigs = set()
 
@@ -80,6 +83,13 @@ def check_case(case, acc):
             cls, desc = classify_exception(e)
             if cls == "crash":
                 add("crash:" + exc_signature(e), desc)
+            elif case.get("pred_chunk"):
+                # the statement allows the error only when a fold accepts no target: the same table predicted in one piece
+                # decides that (same folds, same model output)
+                ref = check_case({k: v for k, v in case.items() if k != "pred_chunk"}, Acc())
+                if ref == "result_full":
+                    add("explicit-error-only-with-chunked-prediction", f"brew raised '{str(e)[:120]}' when the table is predicted "
+                        f"in chunks of {case['pred_chunk']} rows, while every fold accepts targets when it is predicted in one piece")
             elif case["fdr"] < 1e-3 and "calibrate" not in str(e) and "eval_fdr" not in str(e) and "train" not in str(e).lower():
                 add("wrong-explicit-error", f"expected the calibration error, got: {e}")
             return cls
@@ -183,6 +193,9 @@ def run(ctx):
                 cases.append(dict(mults=list(mv), offset=off, folds=3, fdr=fdr, first_only=True, est="offset"))
             for fdr in (0.26, 0.51):  # evaluation FDR looser than the model's training FDR
                 cases.append(dict(mults=list(mv), offset=off, folds=3, fdr=fdr, first_only=True, train_fdr=0.13))
+            for fdr in (0.13, 0.25):  # prediction in row chunks smaller than the table
+                for pc in (7, 25):
+                    cases.append(dict(mults=list(mv), offset=off, folds=3, fdr=fdr, first_only=True, pred_chunk=pc))
             for files in (2,):
                 for fdr in FDRS:
                     cases.append(dict(mults=list(mv), offset=off, folds=3, fdr=fdr, first_only=True, files=files))
